@@ -214,7 +214,7 @@ def stepLine (_ : Unit) (line : String) : Unit × String :=
     | ["argv", b, m] => do
         let b ← parseBytes? b
         let m ← m.toNat?
-        pure (fmtArgv (argvSplit (b ++ [NUL]) m))
+        pure (fmtPR (fun r => fmtArgv (some r)) (argvSplitP (b ++ [NUL]) m))
     | ["msh", t] => do
         let t ← parseBytes? t
         pure (fmtDispatch (mshellExecute (t ++ [NUL]) []))
@@ -241,16 +241,14 @@ def stepLine (_ : Unit) (line : String) : Unit × String :=
         pure (fmtDispatch (rshellTablesExecute (t ++ [NUL]) tbls))
     | ["pnext", t] => do
         let t ← parseBytes? t
-        pure (match pathNext (t ++ [NUL]) with
-              | none => "fault"
-              | some none => "null"
-              | some (some (o, l)) => toString o ++ " " ++ toString l)
+        pure (fmtPR (fun r => match r with
+              | none => "null"
+              | some (o, l) => toString o ++ " " ++ toString l) (pathNextP (t ++ [NUL]) 0))
     | ["piter", t] => do
         let t ← parseBytes? t
-        pure (match pathIterate (t ++ [NUL]) with
-              | none => "fault"
-              | some none => "null"
-              | some (some p) => toString (t.length + 1 - p.length))
+        pure (fmtPR (fun r => match r with
+              | none => "null"
+              | some q => toString q) (pathIterateP (t ++ [NUL]) 0))
     | ["pcmp", a, b] => do
         let a ← parseBytes? a
         let b ← parseBytes? b
